@@ -35,8 +35,15 @@ try:
             print(s, res[s]); continue
         try:
             fired = {}
-            for p in props:
-                o = subprocess.run([V + "/check", p], capture_output=True, text=True, cwd=V, env=env)
+
+            def one(p):
+                return p, subprocess.run([V + "/check", p], capture_output=True, text=True, cwd=V, env=env)
+            # the first check extracts the facts of this tree (cached by content hash); the others then run concurrently
+            outs = [one(props[0])]
+            from concurrent.futures import ThreadPoolExecutor
+            with ThreadPoolExecutor(max_workers=7) as ex:
+                outs += list(ex.map(one, props[1:]))
+            for p, o in outs:
                 v = [l for l in o.stdout.splitlines() if l.startswith("  finding ")]
                 if o.returncode == 1:
                     fired[p] = [l.strip()[:300] for l in v]
